@@ -4,7 +4,7 @@ import json, os
 ROOT = os.path.dirname(os.path.dirname(os.path.abspath(__file__)))
 BASE = "cd /repo && /venv/bin/python -m pytest -ra -q -p no:cacheprovider --timeout=900 --continue-on-collection-errors"
 CONDITIONS = {
- "C01": "layout, multi_residue, modifications, guarded_links", "C02": "catalogue (16 link families), dangling",
+ "C01": "layout, multi_residue, modifications, gen_params_mods, guarded_links", "C02": "catalogue (16 link families), dangling",
  "C03": "box_rule, density_box, order, completeness, end_to_end, accepted_is_built", "C04": "consume, coordfile, retry_ignore, backmap_flagged, rewind_supplied, end_to_end",
  "C05": "step, step_length, acceptance, overlap, start_on_grid, start_check", "C06": "rotation, placement, centred, templates_centred, factor_wiring",
  "C07": "geometry, direction, min_image, milestones, bounds, cycles, end_to_end", "C08": "flatten (known finding F20)",
